@@ -69,6 +69,39 @@ theorem generated_smooth_endpoints_count (nd : Py.Dict String (List Rat)) (xs ys
   · intro key h1 h2 h3
     simp [Py.Dict.get?_set, h1, h2, h3]
 
+/-- a column interpolated at positions that end at the full arc length ends at the column's last value -/
+theorem interp_col_last (lens fp pos : List Rat) (hpos : ∀ l ∈ lens, 0 ≤ l) (hl : fp.length = lens.length + 1)
+    (hlast : pos.getLast? = some ((cumdist lens).getLastD 0)) :
+    (interp pos (cumdist lens) fp).getLast? = fp.getLast? := by
+  obtain ⟨hlen, _, _, hm⟩ := cumdist_spec lens hpos
+  cases hxp : cumdist lens with
+  | nil => rw [hxp] at hlen; simp at hlen
+  | cons x0 xr =>
+    cases fp with
+    | nil => simp at hl
+    | cons f0 fr =>
+      have hlr : xr.length = fr.length := by rw [hxp] at hlen; simp at hlen hl; omega
+      have h := (interp_endpoints (x0 :: xr) (f0 :: fr) x0 f0 xr fr rfl rfl hlr (hxp ▸ hm)).2
+      rw [hxp] at hlast
+      simp only [interp, List.getLast?_map, hlast, Option.map_some]
+      rw [List.getLastD_cons] at h ⊢
+      rw [h, List.getLast?_cons, List.getLastD_cons, List.getLastD_eq_getLast?]
+
+/-- **`interp_endpoints` transported (last point)**: for `n ≥ 2` the four columns of the array the generated linear resampler returns end at
+the last values of the original columns, i.e. its last row is the last point of the branch with its radius -/
+theorem generated_lin_last (rows : List (List Rat)) (lens : List Rat) (n : Nat) (hn : 2 ≤ n)
+    (hrow : ∀ r ∈ rows, r.length = 4) (hlen : lens.length + 1 = rows.length) (hpos : ∀ l ∈ lens, 0 ≤ l) :
+    ∃ cols', lin_resample Py.ratFld rows lens (n : Int) = some (rowsOf cols' n) ∧
+      List.Forall₂ (fun c' c => c'.length = n ∧ c'.getLast? = c.getLast?) cols' (colsOf rows) := by
+  refine ⟨_, linResample_refines rows lens n hrow hlen hpos, ?_⟩
+  have hl := (linspace_spec ((cumdist lens).getLastD 0) n hn).2.2.1
+  have key : ∀ fp : List Rat, fp.length = lens.length + 1 →
+      (interp (linspace ((cumdist lens).getLastD 0) n) (cumdist lens) fp).length = n ∧
+      (interp (linspace ((cumdist lens).getLastD 0) n) (cumdist lens) fp).getLast? = fp.getLast? :=
+    fun fp h => ⟨by simp [interp, C16.linspace_length], interp_col_last lens fp _ hpos h hl⟩
+  simp only [linearResample, colsOf, List.map_cons, List.map_nil]
+  refine .cons (key _ (by simp; omega)) (.cons (key _ (by simp; omega)) (.cons (key _ (by simp; omega)) (.cons (key _ (by simp; omega)) .nil)))
+
 /-! non-vacuity: the generated definitions evaluated by the kernel -/
 example : lin_resample Py.ratFld [[0, 0, 0, 1], [1, 0, 0, 2], [1, 0, 0, 5], [3, 0, 0, 3]] [1, 0, 2] 4 =
     some [[0, 0, 0, 1], [1, 0, 0, 5], [2, 0, 0, 4], [3, 0, 0, 3]] := by decide +kernel
